@@ -115,6 +115,52 @@ theorem C15_relabel_move_add_partial (f : Nat → Nat) (b : Buf) (i cp cluster :
     ((f 0 = 0 ∨ Cap b (b.len + 1)) → (b.mapCluster f).add cp (f cluster) = Buf.mapCluster f <$> b.add cp cluster) :=
   ⟨fun hz => moveTo_map b i hz, fun hz => add_map b cp cluster hz⟩
 
+/-  C15_noninterference — full statement: with `b ≈ b'` meaning "equal up to cluster values, glyph-flag bits and the
+    cluster level", every primitive and pipeline step maps ≈-related buffers to ≈-related buffers (so gids and
+    positions never depend on cluster numbering or level).  Proved below is the part that carries the argument in the
+    model: (1) the only routines that consult the level or compare clusters — the two merges, the five flag routines,
+    form_clusters — never move a glyph or change a glyph identity, whatever the level and the cluster values;
+    (2) the streaming primitives do not look at cluster values at all: they commute with *every* map of cluster
+    values (`C15_relabel_stream_partial` has no monotonicity hypothesis), in particular with the map that erases all
+    clusters.  Not proved: the lifting of (1)+(2) to a ≈-simulation for sort / delete_glyphs_inplace /
+    replace_glyphs (their glyph movement is decided by `var1` / `var2` / positions only, by inspection of Buf.lean),
+    and everything outside the buffer (the shapers and lookup interpreters read clusters only through these
+    primitives: site inventory + the `shape-levels` search stream). -/
+
+/-- (1) the level- and cluster-dependent routines leave the glyph sequence (`glyphs` = gid, var1, var2 of every
+    glyph of the logical sequence, in order) untouched — at every cluster level -/
+theorem C15_noninterference_partial (b : Buf) (s e : Nat) :
+    (WF b → b.idx ≤ s → e ≤ b.len → ∃ b', b.mergeClusters s e = .ok b' ∧ glyphs b' = glyphs b) ∧
+    (WF b → e ≤ b.outLen → ∃ b', b.mergeOutClusters s e = .ok b' ∧ glyphs b' = glyphs b) ∧
+    (InPlace b → ∃ b', b.formClusters = .ok b' ∧ glyphs b' = glyphs b) ∧
+    (∀ (s : Nat) (e : Option Nat) (b' : Buf),
+      (b.unsafeToBreak s e = .ok b' ∨ b.unsafeToBreakFromOut s e = .ok b' ∨ b.unsafeToConcat s e = .ok b' ∨
+       b.unsafeToConcatFromOut s e = .ok b' ∨ b.safeToInsertTatweel s e = .ok b') → glyphs b' = glyphs b) := by
+  refine ⟨fun hwf hs he => mergeClusters_glyphs b s e hwf hs he (by decide),
+    fun hwf he => mergeOutClusters_glyphs b s e hwf he,
+    fun hin => formClusters_glyphs b hin (by decide), ?_⟩
+  intro s e b' h
+  rcases h with h | h | h | h | h
+  · exact (unsafeToBreak_flagsOnly h).glyphs_eq
+  · exact (unsafeToBreakFromOut_flagsOnly h).glyphs_eq
+  · exact (unsafeToConcat_flagsOnly h).glyphs_eq
+  · exact (unsafeToConcatFromOut_flagsOnly h).glyphs_eq
+  · exact (safeToInsertTatweel_flagsOnly h).glyphs_eq
+
+/-- (2) the streaming primitives ignore cluster values: erasing every cluster first or afterwards is the same -/
+theorem C15_noninterference_stream (b : Buf) (g : Nat) (x : Info) (n : Nat) :
+    (b.mapCluster (fun _ => 0)).nextGlyph = Buf.mapCluster (fun _ => 0) <$> b.nextGlyph ∧
+    (b.mapCluster (fun _ => 0)).nextGlyphs n = Buf.mapCluster (fun _ => 0) <$> b.nextGlyphs n ∧
+    (b.mapCluster (fun _ => 0)).copyGlyph = Buf.mapCluster (fun _ => 0) <$> b.copyGlyph ∧
+    (b.mapCluster (fun _ => 0)).replaceGlyph g = Buf.mapCluster (fun _ => 0) <$> b.replaceGlyph g ∧
+    (b.mapCluster (fun _ => 0)).outputGlyph g = Buf.mapCluster (fun _ => 0) <$> b.outputGlyph g ∧
+    (b.mapCluster (fun _ => 0)).outputInfo (mc (fun _ => 0) x) = Buf.mapCluster (fun _ => 0) <$> b.outputInfo x ∧
+    (b.mapCluster (fun _ => 0)).moveTo n = (fun r : Buf × Bool => (Buf.mapCluster (fun _ => 0) r.1, r.2)) <$> b.moveTo n ∧
+    (b.mapCluster (fun _ => 0)).sync = (fun r : Buf × Bool => (Buf.mapCluster (fun _ => 0) r.1, r.2)) <$> b.sync :=
+  ⟨nextGlyph_map b (Or.inl rfl), nextGlyphs_map b n (Or.inl rfl), copyGlyph_map b (Or.inl rfl),
+   replaceGlyph_map b g (Or.inl rfl), outputGlyph_map b g (Or.inl rfl), outputInfo_map b x (Or.inl rfl),
+   moveTo_map b n (Or.inl rfl), sync_map b (Or.inl rfl)⟩
+
 /-! ## non-vacuity and the padding example -/
 
 example : SMono (fun c => 3 * c + 7) := fun a b h => by show 3 * a + 7 < 3 * b + 7; omega
@@ -140,5 +186,8 @@ example : ((exRelabel.mapCluster (fun c => 3 * c + 7)).mergeClusters 1 3).toOpti
 theorem C15_padding_example :
     ((exRelabel.mapCluster (· + 1)).ensure 4).1.info.map (·.cluster) = [6, 6, 3, 0] ∧
     (Buf.mapCluster (· + 1) (exRelabel.ensure 4).1).info.map (·.cluster) = [6, 6, 3, 1] := by decide
+
+example : InPlace exRelabel := ⟨rfl, rfl, by decide⟩
+example : WF exRelabel := ⟨by decide, by decide, by decide, by decide⟩
 
 end RbModel.Buf
